@@ -65,6 +65,141 @@ def keyfun(row, col):
     return sqlkey(row[col])
 
 
+def mk_case(scenario, lines, feats, **kw):
+    """a self-contained case: the lines, the generator's record of every line, the arguments of the scenario"""
+    return dict({"scenario": scenario, "input": lines, "records": feats, "parallel": ["records"],
+                 "config": dbside.Cfg().to_json()}, **kw)
+
+
+def order_by_of(cols, form):
+    """the order_by argument as it is passed: a plain string, a tuple or a list of column names"""
+    return None if not cols else (cols[0] if form == "str" else tuple(cols) if form != "list1" else list(cols))
+
+
+def check_scan(case, db, feats, res):
+    """a full iteration without order_by is in input order"""
+    got = [f.id for f in db.all_features()]
+    res.evaluations += 1
+    if got != [f["id"] for f in feats]:
+        common.fail(res, case, "full_scan_not_input_order", "a full iteration without order_by is not in input order",
+                    observed=got, expected=[f["id"] for f in feats])
+    return got
+
+
+def check_count(case, db, feats, res):
+    ft = case["featuretype"]
+    n = db.count_features_of_type(ft)
+    m = len(list(db.features_of_type(ft))) if ft is not None else len(list(db.all_features()))
+    res.evaluations += 1
+    want = sum(1 for f in feats if ft is None or f["ftype"] == ft)
+    if n != m or n != want:
+        common.fail(res, case, "count_differs", "count_features_of_type(%r) differs from the number iterated" % ft,
+                    observed=n, iterated=m, expected=want)
+    return n
+
+
+def check_distinct(case, db, feats, res):
+    fts = sorted(db.featuretypes()); sq = sorted(db.seqids())
+    if fts != sorted(set(f["ftype"] for f in feats)) or sq != sorted(set(f["seqid"] for f in feats)) \
+            or len(fts) != len(set(fts)) or len(sq) != len(set(sq)):
+        common.fail(res, case, "distinct_lists_wrong", "featuretypes()/seqids() are not exactly the distinct values present",
+                    observed={"featuretypes": fts, "seqids": sq},
+                    expected={"featuretypes": sorted(set(f["ftype"] for f in feats)), "seqids": sorted(set(f["seqid"] for f in feats))})
+    return fts, sq
+
+
+def check_query(case, db, feats, rows, res):
+    """all_features / features_of_type with featuretype, strand, order_by, reverse against the brute-force filter and
+    sqlite's ordering.  returns (ids | None, featuretype list | None)"""
+    q = case["query"]
+    ft = tuple(q["featuretype"]) if q.get("featuretype_is_tuple") else q["featuretype"]
+    strand, cols, reverse = q["strand"], q["cols"], q["reverse"]
+    order_by = order_by_of(cols, q["form"])
+    try:
+        if q["method"] == "features_of_type":
+            got = list(db.features_of_type(ft, strand=strand, order_by=order_by, reverse=reverse))
+        else:
+            got = list(db.all_features(featuretype=ft, strand=strand, order_by=order_by, reverse=reverse))
+    except Exception as ex:
+        common.fail(res, case, "query_raised", "query raised %r" % ex, error=dbside.err_name(ex), observed=repr(ex))
+        return None, None
+    ids = [f.id for f in got]
+    ftl = None if (ft is None or len(ft) == 0) else ([ft] if isinstance(ft, str) else list(ft))
+    want = [f["id"] for f in feats if (ftl is None or f["ftype"] in ftl) and (strand is None or f["strand"] == strand)]
+    if sorted(ids) != sorted(want):
+        common.fail(res, case, "query_result_wrong", "query does not return exactly the matching features, each once",
+                    observed=ids, expected=sorted(want))
+        return None, None
+    keys = [tuple(keyfun(rows[i], c) for c in cols) for i in ids]
+    if cols and (len(cols) == 1 or not reverse):
+        if keys != sorted(keys, reverse=(reverse and len(cols) == 1)):
+            common.fail(res, case, "result_not_sorted", "result is not sorted by the requested column(s)",
+                        observed=ids, keys=[str(k) for k in keys])
+    return ids, ftl
+
+
+def apply_step(ctx, db, step, alive):
+    """one step of a history on ONE FeatureDB object: ["delete", featuretype, "ids"|"features"] deletes every feature
+    of that type, ["update", record] adds one feature.  returns (alive afterwards, description)"""
+    import warnings
+    if step[0] == "delete":
+        _, t, form = step
+        victims = [f for f in alive if f["ftype"] == t]
+        if form == "ids":
+            db.delete([f["id"] for f in victims], make_backup=False)
+        else:
+            db.delete([db[f["id"]] for f in victims], make_backup=False)
+        return [f for f in alive if f["ftype"] != t], "delete all %r (%s)" % (t, form)
+    nf = step[1]
+    p2 = dbside.write_lines(os.path.join(ctx.scratch, "c11u.gff3"), lines_of([nf]))
+    with warnings.catch_warnings():
+        warnings.simplefilter("ignore")
+        db.update(p2, make_backup=False)
+    return alive + [nf], "update with a %r on %r" % (nf["ftype"], nf["seqid"])
+
+
+def check_lists(case, db, alive, when, res):
+    """the distinct lists and counts are those of the features alive at this point of the history"""
+    fts = sorted(db.featuretypes()); sq = sorted(db.seqids())
+    wf = sorted(set(f["ftype"] for f in alive)); ws = sorted(set(f["seqid"] for f in alive))
+    counts_ok = all(db.count_features_of_type(t) == sum(1 for f in alive if f["ftype"] == t) for t in set(wf) | {"gene", "exon"})
+    res.evaluations += 1
+    if fts != wf or sq != ws or not counts_ok or len(list(db.all_features())) != len(alive):
+        common.fail(res, case, "lists_after_history_wrong", "featuretypes()/seqids()/counts are not the values present %s" % when,
+                    observed={"featuretypes": fts, "seqids": sq}, expected={"featuretypes": wf, "seqids": ws}, counts_ok=counts_ok)
+
+
+def judge(ctx, case):
+    res = common.Result("C11")
+    lines, feats = case["input"], case["records"]
+    if len(lines) != len(feats):
+        return res
+    path = dbside.write_lines(os.path.join(ctx.scratch, "c11.gff3"), lines)
+    db, rep = dbside.py_create(path, dbside.Cfg.from_json(case["config"]))
+    if db is None:
+        common.fail(res, case, "create_db_raised", "create_db raised: " + rep, error=rep, observed=rep)
+        return res
+    sc = case["scenario"]
+    if sc == "full_scan":
+        check_scan(case, db, feats, res)
+    elif sc == "count":
+        check_count(case, db, feats, res)
+    elif sc == "distinct_lists":
+        check_distinct(case, db, feats, res)
+    elif sc == "query":
+        check_query(case, db, feats, {x["id"]: x for x in dbside.rows_of(db)}, res)
+    elif sc == "history":
+        alive = list(feats)
+        when = "after import"
+        for step in case["history"]:
+            if step[0] == "delete" and not any(f["ftype"] == step[1] for f in alive):
+                continue
+            alive, desc = apply_step(ctx, db, step, alive)
+            when = "after " + desc
+        check_lists(case, db, alive, when, res)
+    return res
+
+
 def run(ctx):
     import gffutils
     res = common.Result("C11")
@@ -80,32 +215,19 @@ def run(ctx):
         path = dbside.write_lines(os.path.join(ctx.scratch, "c11.gff3"), lines)
         db, rep = dbside.py_create(path, dbside.Cfg())
         if db is None:
-            res.oracle_failures.append(("create_db raised: " + rep, {"lines": lines}))
+            common.fail(res, mk_case("import", lines, feats), "create_db_raised", "create_db raised: " + rep, error=rep, observed=rep)
             continue
         rows = {x["id"]: x for x in dbside.rows_of(db)}
         cmds.append(dbside.cmd_load(db)); exp.append("ok"); tags.append(("load", ""))
         # full iteration without order_by is in input order
-        got = [f.id for f in db.all_features()]
-        res.evaluations += 1
-        if got != [f["id"] for f in feats]:
-            res.oracle_failures.append(("a full iteration without order_by is not in input order",
-                                        {"lines": lines, "returned": got}))
+        got = check_scan(mk_case("full_scan", lines, feats), db, feats, res)
         cmds.append("q " + dbside.cmd_query()); exp.append("ok " + enc_list(got)); tags.append(("all_features()", repr(lines)))
         # counts / distinct lists
         for ft in [None, "gene", "exon", "Gene", "absent"]:
-            n = db.count_features_of_type(ft)
-            m = len(list(db.features_of_type(ft))) if ft is not None else len(list(db.all_features()))
-            res.evaluations += 1
-            if n != m or n != sum(1 for f in feats if ft is None or f["ftype"] == ft):
-                res.oracle_failures.append(("count_features_of_type(%r) differs from the number iterated" % ft,
-                                            {"lines": lines, "count": n, "iterated": m}))
+            n = check_count(mk_case("count", lines, feats, featuretype=ft), db, feats, res)
             cmds.append("count " + ("~" if ft is None else enc(ft))); exp.append("ok %d" % n)
             tags.append(("count_features_of_type", repr((lines, ft))))
-        fts = sorted(db.featuretypes()); sq = sorted(db.seqids())
-        if fts != sorted(set(f["ftype"] for f in feats)) or sq != sorted(set(f["seqid"] for f in feats)) \
-                or len(fts) != len(set(fts)) or len(sq) != len(set(sq)):
-            res.oracle_failures.append(("featuretypes()/seqids() are not exactly the distinct values present",
-                                        {"lines": lines, "featuretypes": fts, "seqids": sq}))
+        fts, sq = check_distinct(mk_case("distinct_lists", lines, feats), db, feats, res)
         cmds.append("ftypes"); exp.append("SET " + enc_list(fts)); tags.append(("featuretypes", repr(lines)))
         cmds.append("seqids"); exp.append("SET " + enc_list(sq)); tags.append(("seqids", repr(lines)))
         # queries
@@ -119,85 +241,51 @@ def run(ctx):
                 cols, form = [COLUMNS[qi]], "str"            # every column as a plain string, deterministically
             elif qi < 2 * len(COLUMNS):
                 cols, form = [COLUMNS[qi - len(COLUMNS)]], "tuple1"
-            order_by = None if not cols else (cols[0] if form == "str" else tuple(cols) if form != "list1" else list(cols))
+            order_by = order_by_of(cols, form)
             reverse = r.random() < 0.4
             use_type = ft is not None and ft != [] and r.random() < 0.5
             inp = {"lines": lines, "featuretype": ft, "strand": strand, "order_by": order_by, "reverse": reverse,
                    "method": "features_of_type" if use_type else "all_features"}
             res.evaluations += 1
             res.count("order_" + form)
-            try:
-                if use_type:
-                    got = list(db.features_of_type(ft, strand=strand, order_by=order_by, reverse=reverse))
-                else:
-                    got = list(db.all_features(featuretype=ft, strand=strand, order_by=order_by, reverse=reverse))
-            except Exception as ex:
-                res.oracle_failures.append(("query raised %r" % ex, inp))
-                continue
-            ids = [f.id for f in got]
-            ftl = None if (ft is None or len(ft) == 0) else ([ft] if isinstance(ft, str) else list(ft))
-            want = [f["id"] for f in feats if (ftl is None or f["ftype"] in ftl) and (strand is None or f["strand"] == strand)]
-            if sorted(ids) != sorted(want):
-                res.oracle_failures.append(("query does not return exactly the matching features, each once",
-                                            dict(inp, returned=ids, expected=sorted(want))))
+            case = mk_case("query", lines, feats, query={
+                "featuretype": list(ft) if isinstance(ft, tuple) else ft, "featuretype_is_tuple": isinstance(ft, tuple),
+                "strand": strand, "cols": cols, "form": form, "reverse": reverse, "method": inp["method"]})
+            ids, ftl = check_query(case, db, feats, rows, res)
+            if ids is None:
                 continue
             if len(ids) >= 2:
                 res.nontriv((si, str(ft), strand, str(order_by), reverse))
-            keys = [tuple(keyfun(rows[i], c) for c in cols) for i in ids]
-            if cols and (len(cols) == 1 or not reverse):
-                if keys != sorted(keys, reverse=(reverse and len(cols) == 1)):
-                    res.oracle_failures.append(("result is not sorted by the requested column(s)",
-                                                dict(inp, returned=ids, keys=[str(k) for k in keys])))
             if all(c in MODEL_KEYS for c in cols):
                 cmds.append("q " + dbside.cmd_query(ft=ftl or [], strand=strand, order_by=cols, reverse=reverse))
                 exp.append(("KEYS", ids, cols)); tags.append(("query", repr(inp)))
             if len(res.samples) < 3 and len(ids) > 2 and cols:
                 res.sample({k: v for k, v in inp.items() if k != "lines"} | {"returned": ids})
     # the distinct lists and counts follow the content through a history on ONE FeatureDB object ----------------------
-    import warnings
     for hi in range(15 if not ctx.thorough else 150):
         feats = rand_set(r, r.randrange(4, 15))
-        path = dbside.write_lines(os.path.join(ctx.scratch, "c11h.gff3"), lines_of(feats))
+        lines = lines_of(feats)
+        path = dbside.write_lines(os.path.join(ctx.scratch, "c11h.gff3"), lines)
         db, rep = dbside.py_create(path, dbside.Cfg())
         if db is None:
             continue
         alive = list(feats)
         steps = []
-
-        def check(when):
-            fts = sorted(db.featuretypes()); sq = sorted(db.seqids())
-            wf = sorted(set(f["ftype"] for f in alive)); ws = sorted(set(f["seqid"] for f in alive))
-            counts_ok = all(db.count_features_of_type(t) == sum(1 for f in alive if f["ftype"] == t) for t in set(wf) | {"gene", "exon"})
-            res.evaluations += 1
-            if fts != wf or sq != ws or not counts_ok or len(list(db.all_features())) != len(alive):
-                res.oracle_failures.append(("featuretypes()/seqids()/counts are not the values present %s" % when,
-                                            {"lines": lines_of(feats), "history": steps, "featuretypes": fts,
-                                             "expected_featuretypes": wf, "seqids": sq, "expected_seqids": ws}))
-        check("after import")
+        check_lists(mk_case("history", lines, feats, history=[]), db, alive, "after import", res)
         for _ in range(r.randrange(1, 4)):
             if not alive:
                 break
             k = r.random()
             if k < 0.6:
                 t = r.choice(sorted(set(f["ftype"] for f in alive)))
-                victims = [f for f in alive if f["ftype"] == t]
-                form = r.choice(["ids", "features"])
-                if form == "ids":
-                    db.delete([f["id"] for f in victims], make_backup=False)
-                else:
-                    db.delete([db[f["id"]] for f in victims], make_backup=False)
-                alive = [f for f in alive if f["ftype"] != t]
-                steps.append("delete all %r (%s)" % (t, form))
+                step = ["delete", t, r.choice(["ids", "features"])]
             else:
-                nf = {"id": "new%d" % len(steps), "seqid": r.choice(["chrNew", "chr1"]), "source": "a", "ftype": r.choice(["novel", "gene"]),
-                      "start": "5", "end": "9", "score": ".", "strand": "+", "frame": ".", "extra": [], "note": "a"}
-                p2 = dbside.write_lines(os.path.join(ctx.scratch, "c11u.gff3"), lines_of([nf]))
-                with warnings.catch_warnings():
-                    warnings.simplefilter("ignore")
-                    db.update(p2, make_backup=False)
-                alive.append(nf)
-                steps.append("update with a %r on %r" % (nf["ftype"], nf["seqid"]))
-            check("after " + steps[-1])
+                step = ["update", {"id": "new%d" % len(steps), "seqid": r.choice(["chrNew", "chr1"]), "source": "a",
+                                   "ftype": r.choice(["novel", "gene"]), "start": "5", "end": "9", "score": ".", "strand": "+",
+                                   "frame": ".", "extra": [], "note": "a"}]
+            alive, desc = apply_step(ctx, db, step, alive)
+            steps.append(step)
+            check_lists(mk_case("history", lines, feats, history=list(steps)), db, alive, "after " + desc, res)
         res.count("histories")
 
     out = ctx.model(cmds)
@@ -217,10 +305,9 @@ def run(ctx):
                 res.corr_disagreements.append((comp, inp[:900], m[:300], e[:300]))
     res.assumptions = ["descending order is claimed for a single order_by column only (for several columns DESC binds to "
                        "the last term, as the SQL says)", "order among ties is unspecified"]
+    common.shrink_first_failure(res, lambda case: judge(ctx, case))
     return res
 
 
 def replay(ctx, payload):
-    res = common.Result("C11")
-    print("replay:", payload.get("what"), {k: v for k, v in payload.get("input", {}).items()})
-    return res
+    return common.replay_failure("C11", payload, lambda case: judge(ctx, case))
